@@ -15,7 +15,19 @@ import (
 	"time"
 )
 
-const verifDir = "/verif"
+// verifDir: where registries, references, known findings, evidence and replays live - the directory the check script
+// runs in (it cds to its own location), so that a snapshot of /verif elsewhere (vp run) stays self-contained.
+var verifDir = func() string {
+	if d := os.Getenv("GOVC_VERIF_DIR"); d != "" {
+		return d
+	}
+	if wd, err := os.Getwd(); err == nil {
+		if _, err := os.Stat(filepath.Join(wd, "properties.jsonl")); err == nil {
+			return wd
+		}
+	}
+	return "/verif"
+}()
 
 type BoundedUnit struct {
 	For       string // the function of /repo this harness is about
